@@ -206,6 +206,20 @@ func (ck *checker) checkFile(ci caseInfo, m *master, mf *masterFile, after *desc
 		}
 		return false
 	}
+	if mf.Lit.WKT {
+		// well-known types: nothing at all may change (the model's verdict for every option is "unchanged")
+		if !proto.Equal(mf.Desc, after) {
+			ci.Details = firstDiff(mf.Desc, after)
+			ck.r.Violate("frame/wkt-file-changed", "a well-known-type file differs from the input: "+ci.Details, ci)
+		}
+		for _, o := range cfg.Overrides {
+			if scopeMatches(o.Path, o.Module, mf.Path, fileLit{Module: mf.Lit.Module}) {
+				ck.st.wktProtected.Add(1)
+				return true
+			}
+		}
+		return false
+	}
 	nontrivial := false
 	baseline := m.Baseline[mf.Path]
 	fieldOnly := fieldOnlyRuleInScope(cfg, mf.Path, mf.Lit)
@@ -246,21 +260,15 @@ func (ck *checker) checkFile(ci caseInfo, m *master, mf *masterFile, after *desc
 		after.Options = nil // the options message was created only to hold governed options
 	}
 	// ---- jstype of every field
-	var afterFields []*descriptorpb.FieldDescriptorProto
-	var afterInfos []fieldInfo
-	walkFields(after, func(info fieldInfo, f *descriptorpb.FieldDescriptorProto) {
-		afterFields = append(afterFields, f)
-		afterInfos = append(afterInfos, info)
-	})
+	afterFields := collectFields(after)
 	var rewrittenFieldPaths [][]int32
 	if len(afterFields) != len(mf.Fields) {
 		ck.r.Violate("frame/field-set-changed", fmt.Sprintf("%s: %d fields before, %d after", mf.Path, len(mf.Fields), len(afterFields)), ci)
 	} else {
-		var beforeFields []*descriptorpb.FieldDescriptorProto
-		walkFields(mf.Desc, func(_ fieldInfo, f *descriptorpb.FieldDescriptorProto) { beforeFields = append(beforeFields, f) })
+		beforeFields := mf.FieldPtrs
 		for i, info := range mf.Fields {
-			if afterInfos[i].FullName != info.FullName {
-				ck.r.Violate("frame/field-set-changed", fmt.Sprintf("%s: field %d is %s, was %s", mf.Path, i, afterInfos[i].FullName, info.FullName), ci)
+			if afterFields[i].GetName() != beforeFields[i].GetName() {
+				ck.r.Violate("frame/field-set-changed", fmt.Sprintf("%s: field %d is %s, was %s", mf.Path, i, afterFields[i].GetName(), info.FullName), ci)
 				break
 			}
 			before, got := jstypeState(beforeFields[i]), jstypeState(afterFields[i])
